@@ -35,6 +35,12 @@ var c06Templates = [][]string{
 	{"SETBIT", "K", "3", "1"}, {"GETBIT", "K", "3"}, {"BITCOUNT", "K"}, {"BITCOUNT", "K", "0", "-1"}, {"BITPOS", "K", "1"}, {"BITOP", "AND", "dst", "K", "other"}, {"BITOP", "NOT", "dst", "K"}, {"BITOP", "OR", "K", "other", "other"},
 	{"BITFIELD", "K", "GET", "u8", "0"}, {"BITFIELD", "K", "SET", "u8", "0", "7"}, {"BITFIELD", "K", "INCRBY", "i8", "0", "1"}, {"BITFIELD_RO", "K", "GET", "i8", "0"},
 	{"KEYS", "*"}, {"DBSIZE"}, {"RANDOMKEY"}, {"SCAN", "0"},
+	// valid invocations with extreme index / count arguments (most of them change nothing)
+	{"LTRIM", "K", "0", "9223372036854775807"}, {"LTRIM", "K", "-9223372036854775808", "9223372036854775807"}, {"LRANGE", "K", "-9223372036854775808", "9223372036854775807"}, {"LINDEX", "K", "9223372036854775807"},
+	{"LTRIM", "K", "-2", "9223372036854775807"}, {"LPOP", "K", "9223372036854775807"}, {"LREM", "K", "-9223372036854775808", "a"}, {"LREM", "K", "9223372036854775807", "a"}, {"LSET", "K", "-9223372036854775808", "x"},
+	{"GETRANGE", "K", "-9223372036854775808", "9223372036854775807"}, {"GETRANGE", "K", "0", "9223372036854775807"}, {"LPOS", "K", "a", "RANK", "9223372036854775807"}, {"LPOS", "K", "a", "MAXLEN", "9223372036854775807"},
+	{"LMPOP", "1", "K", "LEFT", "COUNT", "9223372036854775807"}, {"SRANDMEMBER", "K", "9223372036854775807"}, {"HRANDFIELD", "K", "9223372036854775807", "WITHVALUES"}, {"BITCOUNT", "K", "-9223372036854775808", "9223372036854775807"},
+	{"BITPOS", "K", "1", "-9223372036854775808", "9223372036854775807"}, {"SORT", "K", "ALPHA", "LIMIT", "0", "9223372036854775807"}, {"SINTERCARD", "1", "K", "LIMIT", "9223372036854775807"},
 }
 
 // invocations that must fail on their arguments (or, on some key types, on the type): whichever error it is, no key
